@@ -1,13 +1,13 @@
 (* C12 — the swarm monitor accepts every trace of the model. *)
 From Coq Require Import List Arith ZArith Bool Lia.
 From Verif Require Import lib.Wire c12.Model c12.SpecSwarm c12.Proofs_conn c12.Proofs_inv c12.Proofs_wait
-  c12.Proofs_wake c12.Proofs_trace c12.Proofs_quiesce c12.Proofs_stim c12.Proofs_clauses.
+  c12.Proofs_wake c12.Proofs_trace c12.Proofs_quiesce c12.Proofs_stim c12.Proofs_clauses c12.Proofs_clauses2.
 Import ListNotations.
 
-Lemma mon_check_model : forall da s o, reachable da s -> pending s = [] ->
+Lemma mon_check_model : forall da s o, reachable da s -> quiescent s -> pending s = [] ->
   mon_check (obs_of s) o (obs_of (apply_op s o)) = 0.
 Proof.
-  intros da s o R P.
+  intros da s o R Q P.
   pose proof (reachable_apply_op da s o R) as R'.
   pose proof (apply_op_quiescent s o) as Q'.
   pose proof (apply_op_pending s o P) as P'.
@@ -23,20 +23,23 @@ Proof.
   rewrite C5. cbn [negb].
   rewrite (clause6_holds _ (reachable_InvA _ _ R')). cbn [negb].
   rewrite (clause7_holds da s o R). cbn [negb].
-  rewrite (clause8_holds s o P). reflexivity.
+  rewrite (clause8_holds s o P). cbn [negb].
+  rewrite (clause9_holds da s o R Q P). cbn [negb].
+  rewrite (clause10_holds _ (reachable_InvA _ _ R')). reflexivity.
 Qed.
 
-Lemma monitor_run_model : forall da ops s i, reachable da s -> pending s = [] ->
+Lemma monitor_run_model : forall da ops s i, reachable da s -> quiescent s -> pending s = [] ->
   monitor_run (obs_of s) i (model_trace s ops) = [].
 Proof.
-  intros da ops. induction ops as [|o r IH]; intros s i R P; [reflexivity|].
-  cbn [model_trace monitor_run]. rewrite (mon_check_model da s o R P).
-  apply IH; [apply reachable_apply_op; exact R|apply apply_op_pending; exact P].
+  intros da ops. induction ops as [|o r IH]; intros s i R Q P; [reflexivity|].
+  cbn [model_trace monitor_run]. rewrite (mon_check_model da s o R Q P).
+  apply IH; [apply reachable_apply_op; exact R|apply apply_op_quiescent|apply apply_op_pending; exact P].
 Qed.
 
 Lemma swarm_trace_holds_l : forall da ops,
   monitor_run obs_init 0 (model_trace (init_state da) ops) = [].
 Proof.
   intros da ops. change obs_init with (obs_of (init_state da)).
-  apply (monitor_run_model da); [exists []; reflexivity|reflexivity].
+  apply (monitor_run_model da); [exists []; reflexivity| |reflexivity].
+  intros tid. unfold thread_step. cbn. destruct tid; reflexivity.
 Qed.
